@@ -24,7 +24,7 @@ from models import multipart_codec as mc
 
 PROPERTY = 'C13'
 LEVEL = 'exploration'
-RUNS = {'quick': 12000, 'thorough': 400000}
+RUNS = {'quick': 12000, 'thorough': 200000}
 SWEEP = True
 SWEEP_CAP = {'quick': 24, 'thorough': 64}
 BATCH = 100
